@@ -1209,9 +1209,38 @@ func ruleStoredSliceReuse(r *Run) {
 	}
 	// the same when the slice is handed to a function that keeps it (cursor.addVariable(vars) stores its argument in
 	// the new trie node): the call is the store
-	retains := func(callee *ssa.Function, i int) string {
-		if callee == nil || !p.InModule(callee) || i >= len(callee.Params) {
+	var retainsD func(callee *ssa.Function, i int, depth int) string
+	retains := func(callee *ssa.Function, i int) string { return retainsD(callee, i, 0) }
+	retainsD = func(callee *ssa.Function, i int, depth int) string {
+		if callee == nil || !p.InModule(callee) || i >= len(callee.Params) || depth > 3 {
 			return ""
+		}
+		// handed on to a function that keeps it (addVariable -> newVariable(name, toks))
+		found := ""
+		eachInstr(callee, func(in ssa.Instruction) {
+			c, ok := in.(*ssa.Call)
+			if !ok || c.Call.IsInvoke() || found != "" {
+				return
+			}
+			inner := c.Call.StaticCallee()
+			if inner == nil || inner == callee {
+				return
+			}
+			for j, a := range c.Call.Args {
+				if _, isSl := a.Type().Underlying().(*types.Slice); !isSl {
+					continue
+				}
+				for _, o := range p.origins(a, originOpts{local: true, throughSlice: true, throughConvert: true}) {
+					if o == ssa.Value(callee.Params[i]) {
+						if t := retainsD(inner, j, depth+1); t != "" {
+							found = t
+						}
+					}
+				}
+			}
+		})
+		if found != "" {
+			return found
 		}
 		for _, w := range e.AllWrites(callee) { // also into an object the callee has just made (a new trie node)
 			var val ssa.Value
